@@ -403,30 +403,30 @@ impl ReadXml for Info {
                 (ResolveResult::Bound(ns), Event::Start(tag)) if ns == xmlns::BASE => {
                     match tag.local_name().as_ref() {
                         b"bad-attribute" => inner.push(InfoElement::BadAttribute(
-                            reader.read_text(tag.to_end().name())?.as_ref().into(),
+                            reader.read_text(tag.to_end().name())?.trim().into(),
                         )),
                         b"bad-element" => inner.push(InfoElement::BadElement(
-                            reader.read_text(tag.to_end().name())?.as_ref().into(),
+                            reader.read_text(tag.to_end().name())?.trim().into(),
                         )),
                         b"bad-namespace" => inner.push(InfoElement::BadNamespace(
-                            reader.read_text(tag.to_end().name())?.as_ref().into(),
+                            reader.read_text(tag.to_end().name())?.trim().into(),
                         )),
                         b"session-id" => inner.push(InfoElement::SessionId(
                             reader
                                 .read_text(tag.to_end().name())?
-                                .as_ref()
+                                .trim()
                                 .parse()
                                 .map_err(ReadError::SessionIdParse)
                                 .map(|session_id| SessionId::new(session_id).ok())?,
                         )),
                         b"ok-element" => inner.push(InfoElement::OkElement(
-                            reader.read_text(tag.to_end().name())?.as_ref().into(),
+                            reader.read_text(tag.to_end().name())?.trim().into(),
                         )),
                         b"err-element" => inner.push(InfoElement::ErrElement(
-                            reader.read_text(tag.to_end().name())?.as_ref().into(),
+                            reader.read_text(tag.to_end().name())?.trim().into(),
                         )),
                         b"noop-element" => inner.push(InfoElement::NoopElement(
-                            reader.read_text(tag.to_end().name())?.as_ref().into(),
+                            reader.read_text(tag.to_end().name())?.trim().into(),
                         )),
                         name => {
                             return Err(ReadError::UnknownErrorInfo(from_utf8(name)?.to_string()))
